@@ -22,6 +22,12 @@ class Undecidable(Exception):
     pass
 
 
+class ReturnEx(Exception):
+    def __init__(self, value):
+        super().__init__("return")
+        self.value = value
+
+
 class Trap(Exception):
     """the folded expression would panic (overflow / out of bounds / explicit panic)"""
     pass
@@ -208,7 +214,8 @@ def wrap(v, ty):
 
 
 class Folder:
-    def __init__(self, facts, env=None, lets=None, on_call=None):
+    def __init__(self, facts, env=None, lets=None, on_call=None, effects=False):
+        self.effects = effects  # loop-free statement execution (let mut, assignment, early return)
         self.facts = facts
         self.env = dict(env or {})
         self.lets = lets or {}
@@ -232,6 +239,8 @@ class Folder:
                 return e["bool"]
             if "bytes" in e:
                 return list(e["bytes"])
+            if "str" in e:
+                return e["str"]
             raise Undecidable("literal")
         if k == "NamedConst":
             return self.const_val(e)
@@ -286,19 +295,59 @@ class Folder:
                 return self.fold(e["else"])
             return None
         if k == "Block":
-            saved = dict(self.env)
+            introduced = []
+            shadow = {}
             try:
                 for st in e.get("stmts", []):
-                    if st["k"] == "Let" and st["pat"].get("k") == "Bind" and "init" in st and "sub" not in st["pat"]:
-                        self.env[st["pat"]["name"]] = self.fold(st["init"])
+                    if st["k"] == "Let":
+                        if "init" not in st:
+                            raise Undecidable("let without initialiser")
+                        v = self.fold(st["init"])
+                        ok, binds = self._pat_match(st["pat"], v)
+                        if not ok:
+                            if "else" in st:
+                                for x in st["else"]:
+                                    self.fold(x)
+                            raise Undecidable("refutable let")
+                        for n, bv in binds.items():
+                            if n in self.env and n not in shadow:
+                                shadow[n] = self.env[n]
+                            introduced.append(n)
+                            self.env[n] = bv
                     else:
-                        raise Undecidable("statement in block")
+                        if not self.effects:
+                            raise Undecidable("statement in block")
+                        self.fold(st["expr"])
                 if "expr" in e:
                     return self.fold(e["expr"])
                 return None
             finally:
-                self.env = saved
+                for n in introduced:
+                    self.env.pop(n, None)
+                self.env.update(shadow)
+        if k in ("Assign", "AssignOp") and self.effects:
+            lhs = strip(e["lhs"])
+            if lhs["k"] not in ("Var", "Upvar") or lhs["name"] not in self.env:
+                raise Undecidable("assignment to non-local")
+            if k == "Assign":
+                self.env[lhs["name"]] = self.fold(e["rhs"])
+            else:
+                op = e["op"].replace("Assign", "")
+                self.env[lhs["name"]] = self._bin(op, self.env[lhs["name"]], self.fold(e["rhs"]), {"ty": lhs["ty"], "span": e["span"]})
+            return None
+        if k == "Return" and self.effects:
+            raise ReturnEx(self.fold(e["value"]) if "value" in e else None)
         if k == "Match":
+            if str(e.get("source", "")).startswith("TryDesugar"):
+                inner = e["scrut"]["args"][0]
+                v = self.fold(inner)
+                if isinstance(v, dict) and v.get("__variant__") in ("Err", "None"):
+                    if not self.effects:
+                        raise Undecidable("`?` outside effect mode")
+                    raise ReturnEx(v)
+                if isinstance(v, dict) and v.get("__variant__") in ("Ok", "Some"):
+                    return v.get("#0")
+                raise Undecidable("`?` on unknown value")
             v = self.fold(e["scrut"])
             for arm in e["arms"]:
                 ok, binds = self._pat_match(arm["pat"], v)
@@ -316,7 +365,9 @@ class Folder:
         if k == "Adt":
             d = {"__adt__": e["adt"], "__variant__": e["variant"]}
             for f in e["fields"]:
-                d[f["field"] or str(f["idx"])] = self.fold(f["expr"])
+                v = self.fold(f["expr"])
+                d[f["field"] or str(f["idx"])] = v
+                d["#%d" % f["idx"]] = v
             return d
         if k == "Field":
             b = self.fold(e["lhs"])
@@ -327,6 +378,8 @@ class Folder:
             raise Undecidable("field")
         if k == "Tuple":
             return tuple(self.fold(x) for x in e["fields"])
+        if k == "Loop":
+            raise Undecidable("loop")
         if k == "Array":
             return [self.fold(x) for x in e["fields"]]
         if k == "Call":
@@ -339,6 +392,13 @@ class Folder:
                 raise Trap("explicit panic at " + span_str(e["span"]))
             raise Undecidable("call to " + callee)
         raise Undecidable("expression kind " + k)
+
+    def run(self, body):
+        """execute a loop-free body; the result is its value or the early-returned value"""
+        try:
+            return self.fold(body)
+        except ReturnEx as r:
+            return r.value
 
     def _pat_match(self, pat, v):
         k = pat["k"]
@@ -370,6 +430,34 @@ class Folder:
             return False, {}
         if k == "Deref":
             return self._pat_match(pat["sub"], v)
+        if k == "Variant":
+            if isinstance(v, dict):
+                if v.get("__variant__") != pat["variant"]:
+                    return False, {}
+                binds = {}
+                for fp in pat["fields"]:
+                    ok, b = self._pat_match(fp["pat"], v.get("#%d" % fp["f"]))
+                    if not ok:
+                        return False, {}
+                    binds.update(b)
+                return True, binds
+            if isinstance(v, str):  # fieldless enum given by variant name
+                return v == pat["variant"], {}
+            raise Undecidable("variant pattern on non-adt")
+        if k == "Leaf":
+            binds = {}
+            for fp in pat["fields"]:
+                if isinstance(v, dict):
+                    sub = v.get("#%d" % fp["f"])
+                elif isinstance(v, (tuple, list)):
+                    sub = v[fp["f"]]
+                else:
+                    raise Undecidable("leaf pattern")
+                ok, b = self._pat_match(fp["pat"], sub)
+                if not ok:
+                    return False, {}
+                binds.update(b)
+            return True, binds
         raise Undecidable("pattern " + k)
 
     def _chk(self, v, e):
@@ -522,6 +610,11 @@ def sx(e, lets=None, depth=40):
                 sx(e["else"], lets, depth - 1) if "else" in e else None)
     if k == "Return":
         return ("return", sx(e["value"], lets, depth - 1) if "value" in e else None)
+    if k == "Match":
+        if str(e.get("source", "")).startswith("TryDesugar"):
+            return ("try", sx(e["scrut"]["args"][0], lets, depth - 1))
+        return ("match", sx(e["scrut"], lets, depth - 1),
+                tuple((_pat_desc(a["pat"]), sx(a["body"], lets, depth - 1)) for a in e["arms"]), span_str(e["span"]))
     return ("opaque", k, span_str(e["span"]))
 
 
@@ -577,6 +670,10 @@ def _sxs(t):
         return "(%s)" % ", ".join(_sxs(a) for a in t[1])
     if k == "adt":
         return "%s::%s{..}" % (t[1].split("::")[-1], t[2])
+    if k == "try":
+        return _sxs(t[1]) + "?"
+    if k == "match":
+        return "match %s {%d arms}" % (_sxs(t[1]), len(t[2]))
     return str(t)
 
 
